@@ -64,8 +64,19 @@ def execute(case):
         async with anyio.create_task_group() as tg:
             async with Context() as c1:
                 c1.add_resource_factory(factory, types=ts)
+                spawn1 = anyio.create_memory_object_stream(100)
+
+                async def spawner1(*, task_status):
+                    # a task created while c1 is the current context: what it spawns has c1 as its current context as well
+                    task_status.started()
+                    async for fn, arg in spawn1[1]:
+                        tg.start_soon(fn, arg)
+                if case.get("inject"):
+                    await tg.start(spawner1)
                 async with Context() as c2:
                     ctxs = {1: c1, 2: c2}
+                    if case.get("inject"):
+                        c2.add_resource(Obj("static-of-2"), "only2")       # visible in c2 only: the decorated function's first marker
 
                     async def listen(c, *, task_status):
                         async with ctxs[c].resource_added.stream_events(max_queue_size=1000) as st:
@@ -82,7 +93,15 @@ def execute(case):
                         log({"ev": "begin", "k": k, "c": c})
                         begun.add(k)
                         try:
-                            if k % 2:
+                            if case.get("inject"):
+                                # through ONE decorated function per (type, optional) shared by all tasks; the task's current context is ctxs[c]
+                                from asphalt.core import current_context
+                                if current_context() is not ctxs[c]:
+                                    raise RuntimeError("harness: the lookup task does not run in its context")
+                                who, v = await _inj(prog["typ"][k - 1], k % 2 == 0)(k)
+                                want = ctxs[c].get_resource_nowait(Obj, "only2", optional=True)
+                                log({"ev": "static", "k": k, "c": c, "got": getattr(who, "label", "none"), "want": getattr(want, "label", "none")})
+                            elif k % 2:
                                 v = await ctxs[c].get_resource(TYP[prog["typ"][k - 1]])
                             else:
                                 v = await ctxs[c].get_resource(TYP[prog["typ"][k - 1]], "default", optional=True)
@@ -99,10 +118,15 @@ def execute(case):
                     while i < len(hist):
                         a = hist[i]
                         i += 1
+                        def start(k):
+                            if case.get("inject") and prog["ctx"][k - 1] == 1:
+                                spawn1[0].send_nowait((lookup, k))
+                            else:
+                                tg.start_soon(lookup, k)
                         if a["a"] == "begin":
-                            tg.start_soon(lookup, a["k"])
+                            start(a["k"])
                             while burst and i < len(hist) and hist[i]["a"] == "begin":
-                                tg.start_soon(lookup, hist[i]["k"])
+                                start(hist[i]["k"])
                                 i += 1
                         else:
                             c = a["c"]
@@ -142,6 +166,60 @@ def execute(case):
     except BaseException as e:  # noqa: BLE001 - the driver never dies: the trace is still validated
         events.append({"ev": "crash", "what": repr(e)[:200]})
     return {"id": case["id"], "events": events}
+
+
+_INJ = {}
+
+
+def _inj(typ, opt):
+    if (typ, opt) not in _INJ:
+        from asphalt.core import inject, resource
+        T = {1: T1, 2: T2}[typ]
+
+        async def f(k, *, who=resource("only2"), dep=resource()):
+            return who, dep
+        f.__annotations__ = {"who": Obj | None, "dep": (T | None) if opt else T}
+        _INJ[typ, opt] = inject(f)
+    return _INJ[typ, opt]
+
+
+def inject_check(prop: str, tier: str, seed: int, rep: core.Report, limit: int) -> None:
+    """The race family with every lookup made through a decorated coroutine function shared by all tasks (C19): a (program, schedule)
+    is reported only when the decorated execution is rejected by the race monitor while the explicit one is accepted."""
+    import random
+    n = 3
+    cfg = open(tlc.SPECS / "MC_Race.cfg").read().replace("N = 3", f"N = {n}")
+    res = tlc.run("MC_Race", cfg_text=cfg, workers=core.NCPU, big=True, heap="12g", timeout=3000, check=False)
+    if res.error or res.invariant_violated:
+        raise core.MachineryError(f"Race.tla: {res.invariant_violated or res.error}\n{res.out[-1500:]}")
+    rep.add_tlc(res, f"MC_Race N={n}: (program, schedule) pairs for the decorated-lookup race family")
+    pairs = sorted(res.printed(), key=lambda p: json.dumps(p, sort_keys=True))
+    random.Random(seed).shuffle(pairs)
+    pairs = [p for p in pairs if len({c for c in p["prog"]["ctx"]}) > 1 or len(p["hist"]) >= 4][:limit]
+    cases = []
+    for i, p in enumerate(pairs):
+        be = vclock.BACKENDS[i % len(vclock.BACKENDS)]
+        for inj in (True, False):
+            cases.append({"id": f"{i}-{'inj' if inj else 'exp'}", "prog": p["prog"], "hist": p["hist"], "backend": be, "seed": seed + i, "burst": i % 3 == 0, "inject": inj})
+    chunks = [cases[i:i + 200] for i in range(0, len(cases), 200)]
+    traces = {t["id"]: t for ch in core.pmap(_exec_chunk, chunks, chunks=1) for t in ch}
+    verdicts, d, g = core.validate_traces("Trace_Race", list(traces.values()), chunk=2000)
+    rep.states += d
+    rep.transitions += max(d, g)
+    rep.traces_validated += len(traces)
+    both_bad = 0
+    for i, p in enumerate(pairs):
+        vi, ve = verdicts[f"{i}-inj"], verdicts[f"{i}-exp"]
+        bad_i = (vi.get("whys") or []) or ([] if core.tla_bool(vi["ok"]) else [vi["why"]])
+        bad_e = (ve.get("whys") or []) or ([] if core.tla_bool(ve["ok"]) else [ve["why"]])
+        crashed = any(e["ev"] == "crash" for e in traces[f"{i}-inj"]["events"])
+        if (bad_i or crashed) and not bad_e:
+            clause = "crash" if crashed and not bad_i else bad_i[0].split(":", 1)[-1]
+            rep.violations.append(core.Violation(prop, f"decorated lookups racing in two contexts differ from the explicit lookups: {clause}", f"{prop}:race:{clause}",
+                                                 {"kind": "race-inject", "case": next(c for c in cases if c["id"] == f"{i}-inj")}, {"events": traces[f"{i}-inj"]["events"][:60]}))
+        elif bad_i:
+            both_bad += 1
+    rep.extra["decorated_race_family"] = {"pairs": len(pairs), "executions": len(traces), "rejected_with_and_without_the_decorator (another property's business)": both_bad}
 
 
 def _exec_chunk(chunk):
